@@ -593,6 +593,17 @@ impl Transaction {
         self.transaction_type == TransactionType::Issuance
     }
 
+    /// Fee, ATR and SPV transactions are produced as part of a block (or of a lite block)
+    /// and are never submitted or relayed on their own; issuance is only possible in the
+    /// first block.
+    pub fn is_acceptable_outside_a_block(&self, blockchain: &Blockchain) -> bool {
+        match self.transaction_type {
+            TransactionType::Fee | TransactionType::ATR | TransactionType::SPV => false,
+            TransactionType::Issuance => blockchain.blocks.is_empty(),
+            _ => true,
+        }
+    }
+
     // generates
     //
     // when the block is created, block.generate() is called to fill in all the
